@@ -11,6 +11,7 @@ mod common;
 mod c02;
 mod c12;
 mod c13;
+mod c17;
 mod mgr;
 mod world;
 
@@ -24,7 +25,7 @@ fn main() {
         std::process::exit(2);
     }
     let prop = args[2].clone();
-    if prop == "C12" && std::env::var("VERIF_CHILD").is_err() {
+    if (prop == "C12" || prop == "C17") && std::env::var("VERIF_CHILD").is_err() {
         parent_per_case(&prop);
         return;
     }
@@ -83,6 +84,7 @@ fn new_exec(prop: &str, case_no: u64) -> Box<dyn CaseExec> {
         "C10" => Box::new(mgr::Exec::new(case_no)),
         "C12" => Box::new(c12::Exec::new(case_no)),
         "C13" => Box::new(c13::Exec::new(case_no)),
+        "C17" => Box::new(c17::Exec::new(case_no)),
         _ => {
             eprintln!("unknown property {}", prop);
             std::process::exit(2);
